@@ -1,6 +1,6 @@
 (* C13 — Variables reach commands with their spokfile value, by template and environment.
    Statements + `exact` + Print Assumptions only. *)
-From Spok Require Import Base Paths Vars VarsProofs.
+From Spok Require Import Base Paths Vars VarsProofs Lexer Parser Load LoadProofs.
 
 (* In a command written as literal text (without '{') and {{.NAME}} references (names of ASCII letters, digits, '_'),
    every reference is replaced by the variable's value - whatever bytes the value contains - and all other text reaches
@@ -22,6 +22,20 @@ Theorem C13_join : forall cwd parts, is_rooted cwd = true ->
   exists out, join_builtin cwd parts = slash :: join_slash out /\ Forall plain out.
 Proof. exact join_is_absolute_clean. Qed.
 Print Assumptions C13_join.
+
+(* "defined earlier": whatever else the spokfile holds, a task is built by task.New's rules with exactly the variables that the
+   part of the file before it defines (so a reference to a variable assigned only later is not that variable), and its
+   commands are the template expansions of the commands as written *)
+Theorem C13_defined_earlier : forall cwd exec root pre doc name deps outs cmds post vs ts,
+  load cwd exec root (pre ++ NTask doc name deps outs cmds :: post) = LOk vs ts ->
+  exists vs0 ts0 t, load cwd exec root pre = LOk vs0 ts0 /\ load_task root vs0 doc name deps outs cmds = Some t /\
+                    In t ts /\ has_ltask ts0 name = false.
+Proof. exact task_sees_earlier_vars. Qed.
+Print Assumptions C13_defined_earlier.
+Theorem C13_commands_expanded : forall root vs doc name deps outs cmds t,
+  load_task root vs doc name deps outs cmds = Some t -> Forall2 (fun c o => expand_vars vs c = TOk o) cmds (lt_cmds t).
+Proof. exact commands_expanded. Qed.
+Print Assumptions C13_commands_expanded.
 
 (* non-vacuity: FOO := "a$b" ; "echo {{.FOO}} {{ .NOPE }}" ; ambient FOO=x ; join("a","..","b/./c") under /p *)
 Example C13_nonvacuous :
